@@ -522,6 +522,9 @@ Contents == { <<>> } \cup (IF MaxDefs >= 1 THEN { <<[n |-> n, d |-> d]>> : n \in
             \cup (IF MaxDefs >= 2 THEN { <<[n |-> n1, d |-> d1], [n |-> n2, d |-> d2]>> :
                                           n1 \in Name, n2 \in Name, d1 \in PairDecls, d2 \in PairDecls } ELSE {})
 
+\* (in a configuration whose declarations never use the third name, calling it is calling an unregistered name
+\* once more)
+CallSvc == IF "S3" \in UNION { d.svc : d \in Decls } THEN Svc ELSE Svc \ {"S3"}
 FailSet == IF "fail" \in Acts THEN BOOLEAN ELSE {FALSE}
 ImSet == IF "import" \in Acts /\ Module \in Ctx THEN BOOLEAN ELSE {FALSE}
 ModContents == { c \in Contents : DistinctNames(c) }
@@ -545,7 +548,7 @@ Next == \/ (started /\ \E c \in Ctx, n \in Name, d \in Decls : Define(c, n, d))
         \/ (~started /\ \E d1 \in BootContents, d2 \in BootContents, f1 \in FailSet, f2 \in FailSet : Boot(d1, d2, f1, f2))
         \/ (started /\ \E e \in Ev : Fire(e))
         \/ (started /\ \E x \in Ent : SetState(x))
-        \/ (started /\ \E s \in Svc, data \in Data, rr \in BOOLEAN : Call(s, data, rr))
+        \/ (started /\ \E s \in CallSvc, data \in Data, rr \in BOOLEAN : Call(s, data, rr))
         \/ (started /\ \E c \in Ctx, f \in OutForms, give \in OutGives : Out(c, f, give))
         \/ (started /\ \E g \in Gen : StopDeferred(g) \/ ReaperCancel(g))
 Spec == Init /\ [][Next]_vars
